@@ -214,7 +214,8 @@ def check_case(run, members, fbp, extra_bp, exit_on_exception):
                         run.fail({"subcheck": "portfolio:get_value-raised"}, case, "get_value raised %s: %s" % (type(out[1]).__name__, out[1]))
             if r is not None and oks and not exit_on_exception:
                 # solving under assumptions: the verdict is the one of assertions + assumptions, the assertions stay
-                out = call_with_deadlock_watch(lambda: port.solve([e2]))
+                ass = [[e2], (e2,), iter([e2]), (x_ for x_ in [e2])][len(repr(fbp)) % 4]     # any iterable
+                out = call_with_deadlock_watch(lambda: port.solve(ass))
                 if out[0] == "ok":
                     run.cls("solve-under-assumptions")
                     if out[1] != brute([b, b2]):
